@@ -494,6 +494,24 @@ func genC05(e *emitter, tier string, seed uint64) {
 			}
 		}
 	}
+	// (e') non-minimal pushes in every kind of place that is not executed: dead branches, ELSE arms of conditionals nested
+	//      in dead branches, behind an OP_RETURN executed inside a conditional, behind a top-level OP_RETURN - and, for
+	//      contrast, the same places when they are executed
+	for _, era := range eras {
+		ctxs := []string{"0063X6851", "51636aX68", "5151636aX68", "5151636a68X", "00630063 67X 686851", "0063516367X686851", "006351 63X67X 686851",
+			"516367X6851", "006467X6851", "51630063X6867X6851", "0063006367X67X686851", "00630063X686751X68", "516a X", "51636a6700630067X6868", "0063006300636767X68686851",
+			"5163X6851", "006367X6851", "5163516367686a X68"}
+		pushes := []string{"0105", "4c0107", "4d010007", "0181", "4c00", "4d0000", "4e00000000", "4c020102", "010051"}
+		for _, c := range ctxs {
+			for _, p := range pushes {
+				for _, fl := range []int{0, fMinimalData} {
+					l := mustHex(strings.ReplaceAll(strings.ReplaceAll(c, " ", ""), "X", p))
+					noteVerdict(e, ixExec(e, era|fl, nil, l), "nonminimal-unexecuted")
+					noteVerdict(e, ixExec(e, era|fl, []byte{0x51}, l), "nonminimal-unexecuted")
+				}
+			}
+		}
+	}
 }
 
 func init() {
